@@ -42,7 +42,7 @@ THEOREMS = ["JanetModel.Props.C03." + t for t in (
     # session 4b: abstract values with compare / hash hooks (value.c dispatch with the hooks as parameters; inttypes.c hooks lawful)
     "abstract_equals_equivalence_and_hash", "abstract_compare_antisymm", "abstract_compare_triple", "abstract_compare_eq_zero_iff_equals",
     "abstract_compare_total_order", "abstract_model_extends_value_model", "compare_abstract_is_type_then_hook", "inttypes_hooks_lawful",
-    "abstract_dispatch_tie",
+    "abstract_dispatch_tie", "abstract_lt_le_gt_ge_agree", "abstract_compare_congr",
     # session 4b: the pointer short-cuts of janet_equals are reflexivity on content
     "equals_pointer_shortcuts_are_reflexivity", "pointer_shortcut_tie",
     # session 4b: equal lookups => MapEquiv => `=` structs
